@@ -65,8 +65,61 @@ fn mega_case(k: u64) -> Case {
     Case { prop: "C01".into(), gen: "M-family-mega".into(), text, input, client, ..Case::default() }
 }
 
+/// Streams of billions of characters in run-length form (positions past 2^31 and 2^32 in the
+/// stream and within one line): a comment or a run of blanks is jumped over in one step.
+pub fn giant_streams() -> Vec<Vec<(char, u64)>> {
+    const G: u64 = 1 << 30;
+    let text = |s: &str| -> Vec<(char, u64)> { s.chars().map(|c| (c, 1)).collect() };
+    let mut v = Vec::new();
+    for n in [2 * G + 5, 3 * G, 4 * G + 5, 5 * G] {
+        // one comment line of n characters, then a document
+        let mut a = text("# ");
+        a.push(('x', n));
+        a.extend(text("\na: b\n"));
+        v.push(a);
+        // two comment lines (the stream index passes the limit, the column does not)
+        let mut b = text("# ");
+        b.push(('x', n / 2));
+        b.extend(text("\n# "));
+        b.push(('y', n / 2 + 9));
+        b.extend(text("\n- c\n"));
+        v.push(b);
+        // a trailing comment after a plain scalar (blank runs are skipped one character at a
+        // time by every input, so they cannot be made this long)
+        let mut c = text("a: b # ");
+        c.push(('z', n));
+        c.extend(text("\nd: e\n"));
+        v.push(c);
+        // a comment after a flow indicator and a block scalar header
+        let mut d = text("- [a, # ");
+        d.push(('x', n));
+        d.extend(text("\n  b]\n- | # "));
+        d.push(('x', n));
+        d.extend(text("\n  text\n"));
+        v.push(d);
+    }
+    v
+}
+pub fn giant_count() -> u64 {
+    giant_streams().len() as u64 * 2
+}
+
 pub fn generate(run_seed: u64, corpus: &Corpus, sw: &Swarm, i: u64, exhaustive: u64) -> Case {
     if i < exhaustive {
+        let gn = giant_count();
+        if i >= exhaustive - gn {
+            let j = (i - (exhaustive - gn)) as usize;
+            let client = if j % 2 == 0 { Client::Iterate } else { Client::LoadMulti };
+            return Case {
+                prop: "C01".into(),
+                gen: "G-giant-rle".into(),
+                text: crate::inputs::SimRle::notation(&giant_streams()[j / 2]),
+                input: InputKind::Rle,
+                client,
+                ..Case::default()
+            };
+        }
+        let exhaustive = exhaustive - gn;
         let i = match crate::batch::spread(i, mega_count()) {
             Ok(k) => return mega_case(k),
             Err(j) => j,
@@ -76,7 +129,18 @@ pub fn generate(run_seed: u64, corpus: &Corpus, sw: &Swarm, i: u64, exhaustive: 
         let (kind, cl) = W5_ENVS[(i % n_env) as usize];
         let client = client_for(cl);
         // last block: ordered pairs of edge-value escapes in a double-quoted scalar, iterate + two loaders
-        // very last block: the (context, follower, suffix) triples, plain iteration and one loader
+        // very last block: every split of a core-schema tag between %TAG prefix and suffix
+        let tsn = gen::tag_split_count() * 5;
+        if i >= exhaustive - tsn {
+            let j = i - (exhaustive - tsn);
+            let client = match j % 5 {
+                0 => Client::Iterate,
+                n => Client::Loader((n - 1) as u8, if (j / 5) % 2 == 0 { 0 } else { 3 }),
+            };
+            return Case { prop: "C01".into(), gen: "T-tag-splits".into(), text: gen::nth_tag_split(j / 5), input: if j % 2 == 0 { InputKind::Str } else { InputKind::Buffered }, client, ..Case::default() };
+        }
+        let exhaustive = exhaustive - tsn;
+        // before it: the (context, follower, suffix) triples, plain iteration and one loader
         let ctxn = gen::count_context_cases() * 2;
         if i >= exhaustive - ctxn {
             let j = i - (exhaustive - ctxn);
